@@ -31,7 +31,7 @@ TRUTHY = ("t", "true", "y", "yes", "on", "1")
 
 def BOUNDS(tier):
     n = 4 if tier == "quick" else 5
-    return ("EXCL: all 2^5 presence subsets of listen/host/port/sockets/unix_socket x 4 socket lists x 6 trusted-proxy option shapes x an unknown "
+    return ("EXCL: all 2^5 presence subsets of listen/host/port/sockets/unix_socket x 9 socket lists x 10 trusted-proxy option shapes x an unknown "
             "option name; CAST: every boolean option spelling of <= %d symbolic characters, integers / octal strings / url_prefix of <= 3-4 symbolic "
             "characters, list values from templates with a symbolic character; CLI: every option of Adjustments._params in both spellings "
             "(--x / --no-x for booleans, --x=v with v symbolic <= 3 characters) against the keyword form; DOC: direct comparison." % n)
@@ -101,8 +101,11 @@ def _construct(adj_mod, kw):
 
 
 # ---------------------------------------------------------------------------------------------- jobs
-SOCKLISTS = {"inet": [(2, 1)], "unix": [(1, 1)], "mixed": [(2, 1), (1, 1)], "dgram": [(2, 2)]}
-PROXY = [dict(), dict(trusted_proxy="1.2.3.4"), dict(trusted_proxy_count=2), dict(trusted_proxy_headers="forwarded"),
+SOCKLISTS = {"inet": [(2, 1)], "unix": [(1, 1)], "mixed": [(2, 1), (1, 1)], "dgram": [(2, 2)], "inet6": [(10, 1)], "inet6_dgram": [(10, 2)],
+             "unix_dgram": [(1, 2)], "inet_and_inet6": [(2, 1), (10, 1)], "good_and_dgram6": [(2, 1), (10, 2)]}
+BAD_SOCKLISTS = ("mixed", "dgram", "inet6_dgram", "unix_dgram", "good_and_dgram6")
+PROXY = [dict(), dict(trusted_proxy="1.2.3.4"), dict(trusted_proxy_count=2), dict(trusted_proxy_count=0), dict(trusted_proxy_count="0"),
+         dict(trusted_proxy_headers="forwarded"), dict(trusted_proxy="1.2.3.4", trusted_proxy_count=0),
          dict(trusted_proxy="1.2.3.4", trusted_proxy_headers="forwarded x-forwarded-for"),
          dict(trusted_proxy="1.2.3.4", trusted_proxy_headers="x-forwarded-for x-bogus"),
          dict(trusted_proxy="1.2.3.4", trusted_proxy_count=3, trusted_proxy_headers="X-Forwarded-For x-forwarded-host")]
@@ -272,7 +275,7 @@ def _expect_excl(inp):
         bad = True
     if b["unknown"]:
         bad = True
-    if b["sockets"] and inp["socks"] in ("mixed", "dgram"):
+    if b["sockets"] and inp["socks"] in BAD_SOCKLISTS:
         bad = True
     p = PROXY[inp["proxy"]]
     if "trusted_proxy" not in p and ("trusted_proxy_count" in p or "trusted_proxy_headers" in p):
